@@ -691,6 +691,64 @@ def rule_semi(ctx, prop):
     return rep
 
 
+# R-SEMI(last): whatever check_stmt_requires_semicolon (and the helpers only it reaches) learns about how the *current*
+# statement ends, it learns from the syntactically last child. Accessors / fields that name a non-last child of a node an
+# expression can end with are never consulted (the then-branch of `if c then {} else y`, the lhs of `a + b`, the operand
+# of `x :: T`): an answer computed from them says nothing about the token in front of the next statement's `(`.
+NON_LAST_ACCESSORS = re.compile(
+    r"(IfExpression::(if_expression|condition|else_if_expressions|if_token|then_token|else_token)|"
+    r"ElseIfExpression::(condition|expression|else_if_token|then_token)|TypeAssertion::(expression|assertion_op))$")
+NON_LAST_FIELDS = {("BinaryOperator", "lhs"), ("BinaryOperator", "binop"), ("UnaryOperator", "unop"),
+                   ("TypeAssertion", "expression")}
+
+
+def rule_semi_last(ctx, prop):
+    rep = Report(prop, "R-SEMI(last)", "the semicolon decision looks at the current statement only through last-child "
+                                       "accessors (never the then-branch / condition of an if-expression, the lhs of a "
+                                       "binary operator, the operand of a type assertion)")
+    for cfg, prog in ctx.programs.items():
+        f = prog.fn("stylua_lib", "formatters::block::check_stmt_requires_semicolon")
+        if not rep.anchor(f is not None, "check_stmt_requires_semicolon", cfg):
+            continue
+        seen, work = {}, [f]
+        while work:
+            g = work.pop()
+            if g.path in seen:
+                continue
+            seen[g.path] = g
+            work.extend(h for h in prog.fns("stylua_lib") if h.path.startswith(g.path + "::{closure"))
+            for b, t in g.calls():
+                h = prog.fn("stylua_lib", callee(t))
+                # helpers of the block formatter only: shared utilities (trivia_util ...) answer other questions
+                if h is not None and h.path.startswith("formatters::block::"):
+                    work.append(h)
+        for g in seen.values():
+            bad = []
+            for b, t in g.calls():
+                c = callee(t).split("::<")[0]
+                if NON_LAST_ACCESSORS.search(callee(t)):
+                    bad.append((callee(t).split("ast::")[-1], t["sp"]))
+            for b, si_, st in g.stmts():
+                if st["k"] != "assign":
+                    continue
+                rv = st["rv"]
+                pl = rv.get("p") if rv["k"] in ("ref", "rawptr", "discr") else (op_place(rv.get("o")) if rv.get("o") else None)
+                pr = (pl or {}).get("p") or []
+                for i in range(len(pr) - 1):
+                    a, bb = pr[i], pr[i + 1]
+                    if isinstance(a, dict) and "v" in a and isinstance(bb, dict) and (a["v"], bb.get("f")) in NON_LAST_FIELDS:
+                        bad.append((f"{a['v']}.{bb['f']}", st.get("sp")))
+            rep.inst(f"{g.key} last-child accessors only", {"fn": g.key}, cfg, ok=not bad)
+            for what, sp in bad:
+                rep.violation(f"{g.key} semicolon-decision-from-non-last-child {what}",
+                              f"{g.path} (reached from check_stmt_requires_semicolon) consults {what}, which is not the last child "
+                              f"of its node: whether `;` is needed before a following `(` depends on the token the statement ends "
+                              f"with (e.g. `local x = if c then {{}} else y; (f)()` would lose its semicolon and re-parse as a call)",
+                              g.loc(sp), cfg, witness={"input": "local x = if c then {} else y; (f)()"})
+        rep.floor("functions of the semicolon decision", len(seen), 2, cfg)
+    return rep
+
+
 def rule_cond(ctx, prop):
     rep = Report(prop, "R-COND", "condition parentheses are removed only at the top of a condition")
     for cfg, prog in ctx.programs.items():
